@@ -530,6 +530,89 @@ class Oracle:
   def sub(self, d, c):
     return c == d or c in self.anc.get(d, ())
 
+  # --- type-directed values: inhabitants of a type, generated FROM the type (deterministic, no rng)
+  def subclasses(self, c, limit=3):
+    if not hasattr(self, "_subs"):
+      self._subs = {}
+    if c not in self._subs:
+      self._subs[c] = [c] + sorted(d for d, a in self.anc.items() if d != c and c in a)
+    return self._subs[c][:limit]
+
+  def _cap(self, vals, n):
+    if len(vals) <= n:
+      return vals
+    step = len(vals) / float(n)
+    return [vals[int(i * step)] for i in range(n)]
+
+  def class_values(self, c):
+    """Bare instances of c and of a few subclasses; the special value shapes where c allows them."""
+    out = [V("obj", d, []) for d in self.subclasses(c)]
+    if self.sub(self.tuple_name, c):
+      out.append(V("tup", []))
+    if self.sub(self.callable_name, c):
+      out.append(V("fn", 0, V("obj", c, [])))
+    if self.sub(self.int_name, c):
+      out.append(V("lit", 0))
+    return out
+
+  def inhabitants(self, t, depth=2, cap=48):
+    """Values admitted by t: a few per union member; for generics every combination of per-position
+    choices (empty / one / two items drawn from the parameter's inhabitants), for every (few) subclasses
+    of the base; tuples of arity 0..3 for homogeneous tuples, exact arity for fixed ones; functions."""
+    cls = type(t)
+    if cls is pytd.AnythingType:
+      return [V("obj", "builtins.object", []), V("lit", 1), V("tup", []), V("fn", 1, V("lit", 0))]
+    if cls is pytd.NothingType:
+      return []
+    if cls in (pytd.NamedType, pytd.ClassType):
+      return self.class_values(t.name)
+    if cls is pytd.Literal:
+      return [V("lit", t.value)] if type(t.value) is int else []
+    if cls is pytd.UnionType:
+      out = []
+      per = max(3, cap // max(1, len(t.type_list)))
+      for m in t.type_list:
+        out.extend(self._cap(self.inhabitants(m, depth, cap), per))
+      return out
+    if cls is pytd.GenericType:
+      base = t.base_type.name
+      if depth <= 0:
+        return self.class_values(base)
+      inner = [self._cap(self.inhabitants(p, depth - 1, 12), 4) for p in t.parameters]
+      choices = []
+      for items in inner:
+        ch = [[]] + [[x] for x in items[:3]]
+        if len(items) >= 2:
+          ch.append([items[0], items[-1]])
+        choices.append(ch)
+      out = []
+      for d in self.subclasses(base, 2):
+        for combo in itertools.islice(itertools.product(*choices), 0, 30):
+          out.append(V("obj", d, [list(c) for c in combo]))
+      if self.sub(self.tuple_name, base) and inner:
+        items = inner[0]
+        out.append(V("tup", []))
+        for n in (1, 2, 3):
+          for k in range(min(3, len(items)) if items else 0):
+            out.append(V("tup", [items[(k + j) % len(items)] for j in range(n)]))
+      if self.sub(self.callable_name, base) and len(inner) >= 2:
+        for ar in (0, 1, 2):
+          for x in inner[1][:3]:
+            out.append(V("fn", ar, x))
+      return self._cap(out, cap)
+    if cls is pytd.TupleType:
+      if not self.sub(self.tuple_name, t.base_type.name):
+        return []
+      inner = [self._cap(self.inhabitants(p, depth - 1, 12), 3) for p in t.parameters]
+      if any(not i for i in inner):
+        return []
+      return [V("tup", list(c)) for c in itertools.islice(itertools.product(*inner), 0, cap)]
+    if cls is pytd.CallableType:
+      if not self.sub(self.callable_name, t.base_type.name) or not t.parameters:
+        return []
+      return [V("fn", len(t.parameters) - 1, x) for x in self.inhabitants(t.parameters[-1], depth - 1, 12)[:6]]
+    raise Unsupported("oracle: %s" % cls.__name__)
+
   def admits(self, t, v):
     cls = type(t)
     if cls is pytd.AnythingType:
@@ -598,7 +681,12 @@ def narrowing_witness(orc, before, after, values):
   if before is after or repr(before) == repr(after):
     return None
   try:
-    for v in values:
+    try:
+      directed = orc.inhabitants(before)
+    except Unsupported as e:
+      SKIPPED["inhabitants:" + str(e)] += 1
+      directed = []
+    for v in itertools.chain(directed, values):
       if orc.admits(before, v) and not orc.admits(after, v):
         return v
   except Unsupported as e:
@@ -611,7 +699,7 @@ def param_list(s):
   return ps, s.starargs, s.starstarargs
 
 
-def sig_covered(orc, s, s2, values):
+def sig_covered(orc, s, s2, values, skip_names=()):
   """s2 accepts every call s accepts (pointwise on parameter types) and returns at least as much.
   Returns None if covered, else a description of the first counterexample."""
   ps, st, ss = param_list(s)
@@ -622,6 +710,8 @@ def sig_covered(orc, s, s2, values):
   for p, p2 in pairs:
     if p.kind != p2.kind or p.optional != p2.optional:
       return "shape"
+    if p.name in skip_names:
+      continue
     w = narrowing_witness(orc, p.type, p2.type, values)
     if w is not None:
       return "param %s: %r" % (p.name, w)
@@ -636,11 +726,11 @@ def sig_covered(orc, s, s2, values):
   return None
 
 
-def func_narrowing(orc, f, f2, values):
+def func_narrowing(orc, f, f2, values, skip_names=()):
   for s in f.signatures:
     reasons = []
     for s2 in f2.signatures:
-      why = sig_covered(orc, s, s2, values)
+      why = sig_covered(orc, s, s2, values, skip_names)
       if why is None:
         reasons = None
         break
@@ -689,10 +779,9 @@ def unit_narrowing(orc, u, u2, values, skip_self_in_classes=False):
         return "class %s constant %s loses %r" % (c.name, k.name, w)
     if [m.name for m in c.methods] != [m.name for m in c2.methods]:
       return "methods changed"
-    if skip_self_in_classes:
-      continue
     for m, m2 in zip(c.methods, c2.methods):
-      why = func_narrowing(orc, m, m2, values)
+      # AdjustSelf (remove_mutable only) rewrites `self`/`cls` typed Any to the class: exempt those two names
+      why = func_narrowing(orc, m, m2, values, ("self", "cls") if skip_self_in_classes else ())
       if why:
         return "class %s: %s" % (c.name, why)
   return None
